@@ -364,7 +364,142 @@ fn blocked_family() -> Value {
     })
 }
 
+
+// ------------------------------------------------------------------ (d) a queued command does what the direct command does
+
+/// For every alphabet of the data-type searches and every history up to the depth: each command of the menu is run
+/// directly and, on a fresh replay of the same history, as MULTI / <command> / EXEC; the element of the EXEC reply
+/// must equal the direct reply and the raw dataset afterwards must be the same (EXEC executes the queue on a path
+/// of its own, with a dummy connection id; a seeded change on that path showed only for a blocking pop).
+fn exec_differential(spec: &str, depth: usize, part: u64, parts: u64, io: &mut WorkerIo) -> Value {
+    use super::c12::{absolute_far_ids, clip, normalise, rel, world_for};
+    let b = |s: &str| s.as_bytes().to_vec();
+    let mut w = match world_for(spec) {
+        Some(w) => w,
+        None => return json!({"errors": [format!("unknown spec {}", spec)]}),
+    };
+    let n = w.n_actions();
+    let mut recs = Vec::new();
+    let mut errors = Vec::new();
+    let mut cases = 0u64;
+    let mut nontrivial = 0u64;
+    let mut hists: Vec<Vec<usize>> = vec![vec![]];
+    for d in 1..=depth {
+        let prev: Vec<Vec<usize>> = hists.iter().filter(|h| h.len() == d - 1).cloned().collect();
+        for h in prev {
+            for a in 0..n {
+                let mut x = h.clone();
+                x.push(a);
+                hists.push(x);
+            }
+        }
+    }
+    let mut seen: BTreeSet<u128> = BTreeSet::new();
+    let mut index = 0u64;
+    let mut replay = |w: &mut Box<dyn World>, h: &[usize]| -> Result<(), String> {
+        w.reset()?;
+        for &a in h {
+            let _ = w.apply(a)?;
+        }
+        Ok(())
+    };
+    for h in hists.iter() {
+        if let Err(e) = replay(&mut w, h) {
+            errors.push(e);
+            continue;
+        }
+        if !seen.insert(w.fingerprint().unwrap_or(0)) {
+            continue;
+        }
+        let menu = w.menu_here();
+        for cmd in menu.iter() {
+            index += 1;
+            if index % parts != part {
+                continue;
+            }
+            let name = String::from_utf8_lossy(&cmd[0]).to_uppercase();
+            if matches!(name.as_str(), "MULTI" | "EXEC" | "DISCARD" | "WATCH" | "UNWATCH" | "BLPOP" | "BRPOP" | "SCRIPT" | "EVALSHA") {
+                continue;
+            }
+            if cases % 64 == 0 {
+                io.announce_case(json!({"spec": spec, "history": h, "command": resp::show_cmd(cmd)}));
+            }
+            cases += 1;
+            // direct
+            if let Err(e) = replay(&mut w, h) {
+                errors.push(e);
+                continue;
+            }
+            let d_reply = match w.raw_call(cmd) {
+                Ok(r) => r,
+                Err(_) => continue, // no reply to the direct command: C05's subject
+            };
+            let d_epoch = w.epoch_ms();
+            let d_state = absolute_far_ids(&w.raw_state(), d_epoch);
+            // queued
+            if let Err(e) = replay(&mut w, h) {
+                errors.push(e);
+                continue;
+            }
+            let steps: Vec<String> = h.iter().map(|a| w.describe(*a)).collect();
+            let r1 = w.raw_call(&[b("MULTI")]);
+            let r2 = w.raw_call(cmd);
+            let r3 = w.raw_call(&[b("EXEC")]);
+            let q_epoch = w.epoch_ms();
+            let q_state = absolute_far_ids(&w.raw_state(), q_epoch);
+            let mut problem: Option<String> = None;
+            match (&r1, &r2, &r3) {
+                (Ok(m), Ok(q), Ok(x)) => {
+                    if *m != R::ok() {
+                        problem = Some("MULTI-refused".into());
+                    } else if *q == R::Simple(b"QUEUED".to_vec()) {
+                        match x {
+                            R::Arr(v) if v.len() == 1 => {
+                                let want = normalise(&name, &rel(&d_reply, d_epoch));
+                                let got = normalise(&name, &rel(&v[0], q_epoch));
+                                let same = if d_reply.is_err() { v[0].is_err() } else { crate::model::same(&want, &got) };
+                                if !same {
+                                    problem = Some(format!("reply-differs(direct={} queued={})", resp::class(&d_reply), resp::class(&v[0])));
+                                }
+                            }
+                            other => problem = Some(format!("EXEC-answered-{}", resp::class(other))),
+                        }
+                    } else if q.is_err() {
+                        // refused when it was queued: then it must be refused when sent directly, too
+                        if !d_reply.is_err() {
+                            problem = Some("refused-at-queue-time-but-the-direct-command-succeeds".into());
+                        }
+                    } else {
+                        problem = Some(format!("queue-reply-{}", resp::class(q)));
+                    }
+                }
+                _ => problem = Some("no-reply-on-the-transaction-path".into()),
+            }
+            if !d_reply.is_err() {
+                nontrivial += 1;
+            }
+            let random_effect = name == "SPOP" && match &d_reply {
+                R::Bulk(_) => true,
+                R::Arr(v) => !v.is_empty(),
+                _ => false,
+            };
+            if problem.is_none() && q_state != d_state && !random_effect {
+                problem = Some("dataset-differs".into());
+            }
+            if let Some(pr) = problem {
+                recs.push(json!({"spec": spec, "history": h, "steps": steps, "command": resp::show_cmd(cmd), "class": name, "problem": pr,
+                    "detail": {"direct": resp::show(&d_reply), "queue_reply": r2.as_ref().map(resp::show).unwrap_or_else(|e| e.clone()), "exec_reply": r3.as_ref().map(resp::show).unwrap_or_else(|e| e.clone()),
+                        "dataset_after_direct": clip(&d_state), "dataset_after_exec": clip(&q_state)}}));
+            }
+        }
+    }
+    json!({"recs": recs, "errors": errors, "cases": cases, "nontrivial": nontrivial, "states": seen.len()})
+}
+
 fn extra_worker(_tier: &str, task: &Value, _io: &mut WorkerIo) -> Option<Value> {
+    if let Some(t) = task.get("execdiff").or_else(|| task.get("replay").and_then(|r| r.get("execdiff"))) {
+        return Some(exec_differential(t["spec"].as_str().unwrap_or(""), t["depth"].as_u64().unwrap_or(1) as usize, t["part"].as_u64().unwrap_or(0), t["parts"].as_u64().unwrap_or(1), _io));
+    }
     if task.get("blocked").is_some() || task.get("replay").map(|r| r["kind"] == "blocked").unwrap_or(false) {
         return Some(blocked_family());
     }
@@ -446,6 +581,37 @@ fn extra_parent(pool: &Pool, tier: &str, report: &mut RunReport) -> Value {
         Outcome::Died { status, case } => report.machinery_errors.push(format!("blocked-waiter worker died: {} {:?}", status, case)),
     }
     println!("  c07-blocked-waiters: scenarios={}", blocked_n);
+    // (d) direct vs queued, over the data-type alphabets
+    let mut ed_tasks = Vec::new();
+    let specs: Vec<&str> = if thorough { super::c12::SPECS.to_vec() } else { super::c12::SPECS[..8].to_vec() };
+    for spec in specs.iter() {
+        let deep = thorough && matches!(*spec, "c03-mixed" | "c01-core" | "c15-stream" | "c16-core" | "c03-list" | "c03-set" | "c03-hash" | "c04-cmds");
+        let (depth, parts) = if deep { (2u64, 32u64) } else if thorough { (1, 8) } else { (1, 4) };
+        for part in 0..parts {
+            ed_tasks.push(json!({"execdiff": {"spec": spec, "depth": depth, "part": part, "parts": parts}}));
+        }
+    }
+    let mut ed_cases = 0u64;
+    let mut ed_nontrivial = 0u64;
+    for (t, o) in ed_tasks.iter().zip(pool.map(ed_tasks.clone(), 0).iter()) {
+        match o {
+            Outcome::Done(v) => {
+                for e in v["errors"].as_array().cloned().unwrap_or_default() {
+                    report.machinery_errors.push(format!("{}", e));
+                }
+                ed_cases += v["cases"].as_u64().unwrap_or(0);
+                ed_nontrivial += v["nontrivial"].as_u64().unwrap_or(0);
+                for r in v["recs"].as_array().cloned().unwrap_or_default() {
+                    report.deviations.push(Deviation { property: "C07".into(), sig: format!("C07|QUEUED-VS-DIRECT|{}|{}", r["class"].as_str().unwrap_or(""), r["problem"].as_str().unwrap_or("")), replay: json!({"kind": "execdiff", "execdiff": t["execdiff"], "detail": r}) });
+                }
+            }
+            Outcome::Died { status, case } => report.deviations.push(Deviation { property: "C07".into(), sig: "C07|QUEUED-VS-DIRECT|process-died".into(), replay: json!({"kind": "execdiff", "execdiff": t["execdiff"], "status": status, "case": case}) }),
+        }
+    }
+    println!("  c07-queued-vs-direct: cases={} (direct command succeeds in {})", ed_cases, ed_nontrivial);
+    if ed_cases == 0 {
+        report.machinery_errors.push("vacuity: no queued-vs-direct case was run".into());
+    }
     let out = pool.map(tasks, 0);
     let mut n = 0u64;
     let mut outcomes: BTreeSet<u64> = BTreeSet::new();
@@ -482,7 +648,8 @@ fn extra_parent(pool: &Pool, tier: &str, report: &mut RunReport) -> Value {
     if outcomes.len() < 2 {
         report.machinery_errors.push("vacuity: all isolation schedules produced the same replies (nothing interleaved)".into());
     }
-    json!({"blocked_waiter_scenarios": {"executions": blocked_n, "rule": "7 transaction bodies that push to a key x 6 sets of clients blocked on it (BLPOP, BRPOP, both, two keys, timed) x {one write, one command per iteration}: the EXEC reply equals that of the same transaction with nobody waiting, and what the waiters got plus what is left equals what the transaction alone leaves behind"},
+    json!({"queued_vs_direct": {"cases": ed_cases, "direct_command_succeeds_in": ed_nontrivial, "rule": "every command of the C01/C03/C04/C15/C16 alphabets (thorough: also C02's and the full ones) at every state reached by histories up to depth 1 (thorough 2 on eight alphabets): the command directly vs MULTI, the command, EXEC on a fresh replay: the element of the EXEC reply equals the direct reply (same normalisation as C12), a command refused when queued also fails directly, the raw dataset afterwards is the same"},
+        "blocked_waiter_scenarios": {"executions": blocked_n, "rule": "7 transaction bodies that push to a key x 6 sets of clients blocked on it (BLPOP, BRPOP, both, two keys, timed) x {one write, one command per iteration}: the EXEC reply equals that of the same transaction with nobody waiting, and what the waiters got plus what is left equals what the transaction alone leaves behind"},
         "isolation_schedules": {"executions": n, "variants": ["one command per chunk", "fragmented mid-command", "script"], "connection_orders": orders.len(), "distinct_reply_patterns": outcomes.len(), "samples": samples}})
 }
 
